@@ -29,6 +29,10 @@ pub struct Case {
     /// 0: the 4 uniform, 15 single-point and 32 generated mixed plans; 1: all 4^5 plans
     pub mode: u8,
     pub mixed_seed: u64,
+    /// adversarially routed histories (see `crate::history`) in which most conversations save and
+    /// restore a kept state between two steps; compared with the same history without the reloads
+    #[serde(default)]
+    pub histories: Vec<Vec<[u8; 8]>>,
 }
 
 pub fn strategy(cfg: &RunCfg, s: &'static dyn Proto) -> BoxedStrategy<Case> {
@@ -45,8 +49,9 @@ pub fn strategy(cfg: &RunCfg, s: &'static dyn Proto) -> BoxedStrategy<Case> {
         super::c01::ksf_for(s, 0),
         gen::tape(),
         any::<u64>(),
+        prop::collection::vec(super::c07::history_with(6), 8),
     )
-        .prop_map(move |(pw, cred, id_u, id_s, ctx, ksf, tape, mixed_seed)| Case {
+        .prop_map(move |(pw, cred, id_u, id_s, ctx, ksf, tape, mixed_seed, histories)| Case {
             pw,
             cred,
             id_u,
@@ -56,6 +61,7 @@ pub fn strategy(cfg: &RunCfg, s: &'static dyn Proto) -> BoxedStrategy<Case> {
             tape,
             mode,
             mixed_seed,
+            histories,
         })
         .boxed()
 }
@@ -223,6 +229,39 @@ pub fn check(s: &'static dyn Proto, c: &Case, st: &mut Stats, _k: &KnownFindings
             n += 1;
         }
     }
+    // ---- second part: whole adversarial histories with reloads in between vs. the same history
+    // without them (same tapes): every observable outcome - messages, states, keys, refusals - equal
+    let mut hs = crate::history::HistoryStats::default();
+    for (i, h) in c.histories.iter().enumerate() {
+        let mut data = vec![0u8, (c.mixed_seed as u8).wrapping_add(i as u8)];
+        for o in h {
+            data.extend_from_slice(o);
+        }
+        let (mut with, mut without) = (Vec::new(), Vec::new());
+        let mut scratch = crate::history::HistoryStats::default();
+        let ra = crate::history::run_history_traced(s, &data, &mut hs, true, &mut with);
+        let rb = crate::history::run_history_traced(s, &data, &mut scratch, false, &mut without);
+        if let Err(e) = &ra {
+            if e.starts_with("C13 ") {
+                return Err(Fail::new(format!("history #{i}: {e}")));
+            }
+        }
+        // a failure that is another property's subject stops both runs at the same point, or it is
+        // a consequence of the reloads
+        let tag = |r: &Result<(), String>| r.as_ref().err().map(|e| e[..3].to_string());
+        if let Some(k) = (0..with.len().max(without.len())).find(|k| with.get(*k) != without.get(*k)) {
+            return Err(Fail::new(format!(
+                "history #{i}: observable outcome #{k} differs between the run in which kept states were saved and reloaded and the uninterrupted run on the same tapes: reloaded={} uninterrupted={}",
+                with.get(k).map(hex::encode).unwrap_or_else(|| "(run ended)".into()),
+                without.get(k).map(hex::encode).unwrap_or_else(|| "(run ended)".into())
+            )));
+        }
+        ensure!(tag(&ra) == tag(&rb), "history #{i}: the run with reloads ended with {:?}, the uninterrupted run with {:?}", tag(&ra), tag(&rb));
+        st.eval(1);
+        n += 1;
+    }
+    st.label_n("history:states pushed through a codec", hs.reserialisations);
+    st.label_n("history:outcomes compared", hs.client_finishes + hs.server_finishes + hs.registrations);
     st.nontrivial_bulk(hash_of(&(m.name, c)), n);
     st.label_n("plans", plans.len() as u64);
     st.label(if c.mode == 1 { "mode:all-1024-plans" } else { "mode:uniform+single+mixed" });
@@ -243,7 +282,7 @@ pub fn run(cfg: &RunCfg) -> (Outcome, EvidenceExtra) {
     let out = run_property(cfg, "C13", suites, BUDGET, |s| strategy(cfg, s), check);
     let exhaustive = cfg.tier == Tier::Thorough;
     let ev = EvidenceExtra {
-        rule: "case = generated input (password, credential id, identities, context, KSF, tapes) x a set of reload plans; a plan assigns none/native/bincode/JSON to each of the five persistence points (server setup before every server operation, password file, client registration state, client login state, server login state). quick: the 4 uniform, 15 single-point and 32 generated mixed plans; thorough: all 4^5 = 1024 plans per input. Oracle (differential): the run with reloads, on the same tapes, yields byte-identical messages, states, export key, session keys and results (23 artefacts incl. a fake-record response) to the uninterrupted run, and native(reload(x)) = native(x). evaluation = one plan run; non-trivial = plans with at least one reload, distinct per (suite, case)".into(),
+        rule: "case = generated input (password, credential id, identities, context, KSF, tapes) x a set of reload plans; a plan assigns none/native/bincode/JSON to each of the five persistence points (server setup before every server operation, password file, client registration state, client login state, server login state). quick: the 4 uniform, 15 single-point and 32 generated mixed plans; thorough: all 4^5 = 1024 plans per input. Oracle (differential): the run with reloads, on the same tapes, yields byte-identical messages, states, export key, session keys and results (23 artefacts incl. a fake-record response) to the uninterrupted run, and native(reload(x)) = native(x). Second part: 8 generated adversarial histories per case (interpreter of `history.rs`: interleaved conversations of three users with deviations, altered and cross-delivered messages) in which most conversations push a kept state (setup, record, pending client or server state) through native / bincode / JSON after one of their steps, run twice on the same tapes - with and without the reloads - and compared outcome by outcome (every message, state, key and refusal). evaluation = one plan run or one history pair; non-trivial = plans with at least one reload, distinct per (suite, case)".into(),
         assumptions: vec!["bincode images are decoded with trailing bytes rejected".into()],
         exhaustive: Some(exhaustive),
         extra: [("exhaustive_part".to_string(), json!("thorough tier: all 1024 plans for every generated input"))].into_iter().collect(),
